@@ -232,30 +232,55 @@ def rel_to(cwd, p):
     return p[len(cwd):] if p[:len(cwd)] == cwd else None
 
 
+def f16_shape(cwd, tlist, rlist, intended_roots, files):
+    """The shape of the open finding F16 (strategy3-ancestor-capture): a relative target that exists relative to the
+    working directory, whose own root is given as a bare name only (no designation of it that strategy 2 matches), while
+    another root is given as a path one of whose ancestors lies directly in the working directory and carries the target's
+    first component: strategy 3 returns that ancestor before strategy 4 looks for the bare name.  Returns the targets of
+    that shape.  Used to keep such calls out of the strict groups of the random stream and to recognise the known finding;
+    never used for a verdict of the comparison with the model."""
+    cwd = list(cwd)
+    fset = {tuple(f["p"]) for f in files}
+    hits = []
+    for a, tg in tlist:
+        full = cwd + tg
+        if a or tuple(full) not in fset:
+            continue
+        own = [r for r in intended_roots if full[:len(r)] == r]
+        if not own:
+            continue
+        found_by_strategy2 = any((rc if ra else cwd + rc) in own and (ra or tg[:len(rc)] == rc) for ra, rc in rlist)
+        bare = any(not ra and len(rc) == 1 and rc[0] == o[-1] for ra, rc in rlist for o in own)
+        if found_by_strategy2 or not bare:
+            continue
+        for ra, rc in rlist:
+            base = [] if ra else cwd
+            for k in range(len(rc), 0, -1):
+                pth = base + rc[:k]
+                if len(rc) > 1 and rc[k - 1] == tg[0] and pth[:-1] == cwd and pth not in intended_roots and tg not in hits:
+                    hits.append(tg)
+    return hits
+
+
 def walk_up_hazard(cwd, tlist, rlist, intended_roots, files):
-    """Strategy 3 walks up from every root that was given as a path and takes the first ancestor whose name is the first
-    component of a relative target and under whose parent the target exists.  A call belongs to a group of consistent
-    designations only if no such ancestor other than an intended root exists (used for grouping only, never for a verdict)."""
+    """Designations that are ambiguous by construction and therefore not part of a strict group (they are still compared
+    with the model): (1) the F16 shape; (2) a relative target that begins with the name of its root (relative to the
+    directory that contains the root, not to the working directory) while a relative root of the call is, as a pure path,
+    a prefix of it ('.' or a bare name that is also the name of another root)."""
+    if f16_shape(cwd, tlist, rlist, intended_roots, files):
+        return True
     fset = {tuple(f["p"]) for f in files}
     for a, tg in tlist:
         if a:
             continue
         if tuple(list(cwd) + tg) not in fset:
-            # the target begins with the name of its root and is relative to the directory that contains the root: such a
-            # target is looked for under the roots (strategy 3) unless it is (as a pure path) below one of the given roots:
-            # a relative root that is a prefix of it ('.' or a bare name), or any root around the working directory
             for ra, rc in rlist:
                 if not ra and tg[:len(rc)] == rc:
                     return True
-                rr = rc if ra else list(cwd) + rc
-                if (list(cwd) + tg)[:len(rr)] == rr:
-                    return True
-        for ra, rc in rlist:
-            base = [] if ra else list(cwd)
-            for k in range(len(rc), 0, -1):
-                pth = base + rc[:k]
-                if rc[k - 1] == tg[0] and tuple(pth[:-1] + tg) in fset and pth not in intended_roots:
-                    return True
+        else:
+            # strategy 3 also captures a cwd-based target through an ancestor of another root when strategy 2 finds nothing;
+            # with the own root given as a path strategy 2 always finds it first
+            pass
     return False
 
 
@@ -387,13 +412,14 @@ def gen_case(rng, tier):
             gk = gkey
             if gk is not None and walk_up_hazard(cwd, tlist, rlist, roots_inv, t.files):
                 gk = None      # compared with the model only
-            case["calls"].append({"api": "files", "cwd": cwd, "targets": tlist, "roots": rlist, "lookups": [], "gkey": gk})
+            case["calls"].append({"api": "files", "cwd": cwd, "targets": tlist, "roots": rlist, "lookups": [], "gkey": gk,
+                                  "iroots": roots_inv})
         # strategy 1: no roots at all, cwd = the directory that contains the roots, targets begin with the root's name
         if len({tuple(r[:-1]) for r in roots_inv}) == 1 and rng.random() < 0.7:
             cwd = roots_inv[0][:-1]
             tl = [[False, fp[len(cwd):]] for fp, _ in pairs]
             rng.shuffle(tl)
-            case["calls"].append({"api": "files", "cwd": cwd, "targets": tl, "roots": [], "lookups": [], "gkey": gkey})
+            case["calls"].append({"api": "files", "cwd": cwd, "targets": tl, "roots": [], "lookups": [], "gkey": gkey, "iroots": roots_inv})
         # read_namespace on the roots involved (not part of the strict group: it reads every file of the root)
         for r in roots_inv:
             cwd = rng.choice(cwds)
@@ -451,8 +477,8 @@ def simple_case(files, calls, dirs=None):
     return {"files": [{"p": p, "svc": s} for p, s in files], "dirs": dirs or [], "calls": calls}
 
 
-def fcall(cwd, targets, roots, lookups=None, gkey=None):
-    return {"api": "files", "cwd": cwd, "targets": targets, "roots": roots, "lookups": lookups or [], "gkey": gkey}
+def fcall(cwd, targets, roots, lookups=None, gkey=None, iroots=None):
+    return {"api": "files", "cwd": cwd, "targets": targets, "roots": roots, "lookups": lookups or [], "gkey": gkey, "iroots": iroots or []}
 
 
 def ncall(cwd, root, lookups=None):
@@ -474,18 +500,28 @@ def corpus():
         fcall(["w", "a"], [[False, ["ns", "X.1.0.dsdl"]]], [], gkey=g),
         fcall([], [[False, ["ns", "X.1.0.dsdl"]]], [[True, ["w", "a", "ns"]]], gkey=g),
         ncall([], [True, ["w", "a", "ns"]]), ncall(["w"], [False, ["a", "ns"]])]))
-    # the docstring example of read_files
+    # the docstring example of read_files; its third spelling is the open finding F16 (strategy3-ancestor-capture)
     T = ["workspace", "project", "types", "animals", "felines", "Tabby.1.0.dsdl"]
     D = ["workspace", "project", "types", "plants", "trees", "DouglasFir.1.0.dsdl"]
     A, Pl = T[:4], D[:4]
     g = "doc"
+    ir = [A, Pl]
     out.append(simple_case([(T, False), (D, False)], [
-        fcall([], [[False, T], [False, D]], [[False, ["animals"]], [False, ["plants"]]], gkey=g),
-        fcall([], [[False, T], [False, D]], [[False, A], [False, Pl]], gkey=g),
-        fcall([], [[False, T], [False, D]], [[False, ["animals"]], [False, Pl]], gkey=None),   # strategy 3 walks up to 'workspace' (reported)
-        fcall([], [[False, T[3:]], [False, D[3:]]], [[False, A], [False, Pl]], gkey=g),
-        fcall(["workspace"], [[False, T[3:]], [False, D[3:]]], [[True, A], [True, Pl]], gkey=g),
-        fcall(["workspace"], [[True, T], [True, D]], [[True, Pl], [True, A]], gkey=g)]))
+        fcall([], [[False, T], [False, D]], [[False, ["animals"]], [False, ["plants"]]], gkey=g, iroots=ir),
+        fcall([], [[False, T], [False, D]], [[False, A], [False, Pl]], gkey=g, iroots=ir),
+        fcall([], [[False, T], [False, D]], [[False, ["animals"]], [False, Pl]], gkey=g, iroots=ir),
+        fcall([], [[False, T[3:]], [False, D[3:]]], [[False, A], [False, Pl]], gkey=g, iroots=ir),
+        fcall(["workspace"], [[False, T[3:]], [False, D[3:]]], [[True, A], [True, Pl]], gkey=g, iroots=ir),
+        fcall(["workspace"], [[True, T], [True, D]], [[True, Pl], [True, A]], gkey=g, iroots=ir)]))
+    out.append(simple_case([(T, False), (D, False)], [
+        fcall([], [[False, T], [True, D]], [[False, ["animals"]], [True, Pl]], gkey=g, iroots=ir),
+        fcall([], [[True, T], [True, D]], [[False, ["animals"]], [True, Pl]], gkey=g, iroots=ir)]))
+    X2, Y2 = ["w", "a", "ns", "X.1.0.dsdl"], ["w", "a", "other", "Y.1.0.dsdl"]
+    ir = [X2[:3], Y2[:3]]
+    out.append(simple_case([(X2, False), (Y2, False)], [
+        fcall(["w"], [[False, X2[1:]]], [[False, ["ns"]], [False, ["a", "other"]]], gkey="f16", iroots=ir),
+        fcall(["w"], [[False, X2[1:]]], [[False, ["ns"]]], gkey="f16", iroots=ir),
+        fcall(["w"], [[False, X2[1:]]], [[False, ["a", "other"]], [False, ["a", "ns"]]], gkey="f16", iroots=ir)]))
     # F15 (fixed): white space at the end of the short name / around directory names
     for nm in ["Foo .1.0.dsdl", "Foo\t.1.0.dsdl", "Foo .1.0.dsdl", " Foo.1.0.dsdl", "Foo　.1.0.dsdl"]:
         out.append(simple_case([(["ns", nm], False), (["ns", "Ok.1.0.dsdl"], False)], [
@@ -541,6 +577,48 @@ def classify(ex):
     return "COther"
 
 
+def predicate(case, obs, skip):
+    """implementation-alone predicate: (1) all designations of one group give the same answer; (2) one file under one root
+    has one identity in every call that returns it.  Returns a text when it fails."""
+    groups = {}
+    for c, ob in zip(case["calls"], obs):
+        if c.get("gkey") and not skip(c):
+            groups.setdefault(c["gkey"], []).append(ob)
+    for gk, obl in groups.items():
+        for ob in obl[1:]:
+            if ob != obl[0]:
+                return "designations of the same files under the same roots disagree (%s): %r vs %r" % (gk, obl[0], ob)
+    seen = {}
+    for ob in obs:
+        for i in ob.get("ids", []):
+            k = ("/".join(i[4]), "/".join(i[5]))
+            if k in seen and seen[k] != i:
+                return "one file under one root with two identities: %r vs %r" % (seen[k], i)
+            seen[k] = i
+    return None
+
+
+def is_f16_call(case, c):
+    return c["api"] == "files" and bool(c.get("gkey")) and bool(f16_shape(c["cwd"], c["targets"], c["roots"], c.get("iroots") or [], case["files"]))
+
+
+def known_finding(case, obs, known):
+    """F16: the strict predicate fails only because of calls of the strategy3-ancestor-capture shape, and those calls are
+    rejected while another designation of the same files is accepted."""
+    if not any(k.get("signature", {}).get("kind") == "strategy3-ancestor-capture" for k in known):
+        return None
+    if not isinstance(obs, dict) or not obs.get("pred_fail"):
+        return None
+    shaped = [(c, ob) for c, ob in zip(case["calls"], obs["calls"]) if is_f16_call(case, c)]
+    if not shaped or any(ob["r"] != "CInvalidDefinition" for _, ob in shaped):
+        return None
+    if predicate(case, obs["calls"], skip=lambda c: is_f16_call(case, c)):
+        return None       # something else disagrees as well
+    return ("F16 read_files: a relative target whose root is given as a bare name is captured by an ancestor of another root path "
+            "(inference strategy 3 before strategy 4) and the call is rejected as nested root namespaces, e.g. the third spelling of "
+            "the read_files docstring example")
+
+
 def run_impl(cases):
     import shutil
     import tempfile
@@ -587,23 +665,9 @@ def run_impl(cases):
                 finally:
                     os.chdir(home)
             o = {"calls": obs}
-            # implementation-alone predicate: all designations of one group give the same answer
-            groups = {}
-            for c, ob in zip(case["calls"], obs):
-                if c.get("gkey"):
-                    groups.setdefault(c["gkey"], []).append(ob)
-            for gk, obl in groups.items():
-                for ob in obl[1:]:
-                    if ob != obl[0]:
-                        o["pred_fail"] = "designations of the same files under the same roots disagree (%s): %r vs %r" % (gk, obl[0], ob)
-            # an accepted identity of a file is the same in every call that returns it with the same root
-            seen = {}
-            for ob in obs:
-                for i in ob.get("ids", []):
-                    k = ("/".join(i[4]), "/".join(i[5]))
-                    if k in seen and seen[k] != i:
-                        o["pred_fail"] = "one file under one root with two identities: %r vs %r" % (seen[k], i)
-                    seen[k] = i
+            pf = predicate(case, obs, skip=lambda c: False)
+            if pf:
+                o["pred_fail"] = pf
             out.append(o)
         finally:
             os.chdir(home)
